@@ -319,3 +319,12 @@ Theorem C08_map_shift_bound : forall rs p a,
   p - sum_old rs <= map {| ranges := rs; inverted := false |} p a <= p + sum_new rs.
 Proof. exact map_shift_bound. Qed.
 Print Assumptions C08_map_shift_bound.
+
+(* two positions in the same untouched gap keep their distance (and so their order, strictly), whichever sides are used *)
+Theorem C08_gap_rigid : forall pre post p q a b,
+  all_before pre p -> p <= q ->
+  (match post with [] => True | (s, _, _) :: _ => q < s end) ->
+  let m := {| ranges := pre ++ post; inverted := false |} in
+  map m q a - map m p b = q - p.
+Proof. exact map_gap_rigid. Qed.
+Print Assumptions C08_gap_rigid.
